@@ -551,6 +551,13 @@ func (k *Checker) checkSnapshotStep(n *Node, pre, post *raft.VerifState, ctx *ca
 	x := k.nc[n.id]
 	if pre.UnstableSnapshot != nil {
 		k.c.stats.probe("snapshot_arrives_while_one_is_pending")
+		pi := pre.UnstableSnapshot.GetMetadata().GetIndex()
+		switch si := m.GetSnapshot().GetMetadata().GetIndex(); {
+		case si < pi:
+			k.c.stats.probe("older_snapshot_arrives_while_newer_pending")
+		case si > pi:
+			k.c.stats.probe("newer_snapshot_arrives_while_older_pending")
+		}
 	}
 	s := m.GetSnapshot()
 	idx, term := s.GetMetadata().GetIndex(), s.GetMetadata().GetTerm()
